@@ -17,10 +17,14 @@
          hosts  = a zone token with the root apex and no SOA standing for the merged hosts files
                   (From<Hosts> for Zone: A / AAAA records with TTL 5); merged last, always
      Q U <hex>          one datagram                 -> none | <hex of the datagram sent back> | Panic
-                                                        | unserialisable (a reply message was built but
-                                                          to_octets fails: logged and dropped, nothing sent)
+                                                        | unserialisable:<hex> (a reply message was built
+                                                          but to_octets fails: <hex> is the datagram carrying
+                                                          its SERVFAIL stand-in, unserialisable_fallback;
+                                                          "unserialisable:none" if that cannot be serialised
+                                                          either -- never happens)
      Q T<e> <hex>       one TCP connection carrying <hex>, ending as <e> (e | i | o)
-                                                     -> none | <hex of the octets written back> | Panic *)
+                                                     -> none | <hex of the octets written back> | Panic
+                                                        | unserialisable:<hex> as above *)
 open Vutil
 open Vmsg
 open WireTypes
@@ -95,13 +99,13 @@ let serve transport bytes =
     let resolve = resolve_dead_upstream zs cget in
     let dropped r = (match r with Prelude.Ok o -> reply_unserialisable o | _ -> false) in
     if transport = "U" then begin
-      if dropped (udp_reply_message auth_only resolve bytes) then "unserialisable"
-      else show_reply (serve_udp auth_only resolve bytes)
+      (if dropped (udp_reply_message auth_only resolve bytes) then "unserialisable:" else "")
+      ^ show_reply (serve_udp auth_only resolve bytes)
     end
     else if String.length transport = 2 && transport.[0] = 'T' then begin
       let e = end_of_tok (String.sub transport 1 1) in
-      if dropped (tcp_reply_message auth_only resolve bytes e) then "unserialisable"
-      else show_reply (serve_tcp auth_only resolve bytes e)
+      (if dropped (tcp_reply_message auth_only resolve bytes e) then "unserialisable:" else "")
+      ^ show_reply (serve_tcp auth_only resolve bytes e)
     end
     else failwith "server: transport"
 
